@@ -178,9 +178,40 @@ def check_case(ctx, drv, recipe, names, types, store, idx):
     ctx.sample(case, limit=2)
 
 
+def probe_hybrid(ctx):
+    """fixed probe of a recorded finding: nested objects that are both nn.Module and AutoSerialize
+    are torch-saved whole, so skip lists do not reach their attributes"""
+    from quantem.core.io import serialize
+    for shape in ("save", "load"):
+        root = ser_classes.SA()
+        root.h = ser_classes.HybridM()
+        root.count = 1
+        base = os.path.join(scratch(), f"hyb_{shape}")
+        shutil.rmtree(base, ignore_errors=True)
+        os.makedirs(base)
+        path = os.path.join(base, "o.zip")
+        ctx.count()
+        try:
+            with contextlib.redirect_stdout(io.StringIO()):
+                root.save(path, skip=["count"] if shape == "save" else [])
+                back = serialize.load(path, skip=["count"] if shape == "load" else [])
+            if hasattr(back, "count"):
+                ctx.pred_fail(f"skip-{shape}:names", "root attribute not skipped", {"probe": "hybrid", "shape": shape}, observed="count present", required="absent")
+            if hasattr(back.h, "count"):
+                ctx.pred_fail("hybrid-module-autoserialize-skip", "skip list does not reach the attributes of a nested object that is both "
+                              "torch.nn.Module and AutoSerialize", {"probe": "hybrid", "shape": shape},
+                              observed="h.count present", required="absent at every attribute-nested level")
+            if getattr(back.h, "note", None) != "keep":
+                ctx.pred_fail("hybrid-survivor", "surviving attribute of the hybrid object changed", {"probe": "hybrid", "shape": shape},
+                              observed=getattr(back.h, "note", None), required="keep")
+        finally:
+            shutil.rmtree(base, ignore_errors=True)
+
+
 def run(ctx):
     from qv.driver import Driver
     drv = Driver("C14")
+    probe_hybrid(ctx)
     try:
         n = ctx.n(60, 700)
         for i in range(n):
@@ -201,6 +232,9 @@ def run(ctx):
 def replay(ctx, rep):
     from qv.driver import Driver
     case = rep.get("case") or rep["correspondence_disagreements"][0]["case"]
+    if case.get("probe") == "hybrid":
+        probe_hybrid(ctx)
+        return True
     drv = Driver("C14")
     try:
         check_case(ctx, drv, case["recipe"], case["names"], case["types"], case["store"], "replay")
